@@ -208,7 +208,7 @@ static void to_ulong_family() {
 int main(int argc, char** argv) {
    vf::init(argc, argv);
    signal(SIGABRT, on_sig); signal(SIGSEGV, on_sig); signal(SIGBUS, on_sig); std::set_terminate(on_term);
-   if (vf::thorough()) { N_MAX = 9; M_MAX = 6; } else { N_MAX = 5; M_MAX = 4; }
+   if (vf::thorough()) { N_MAX = 9; M_MAX = 6; } else { N_MAX = 7; M_MAX = 5; }
    std::vector<St> operands;
    for (size_t n = 0; n <= M_MAX; ++n) for (uint64_t m = 0; m < (1ull << n); ++m) operands.push_back(state_of_index(n, m));
    std::string rp = vf::replay_case(); size_t rn = 0; unsigned long long rm = 0; bool rep = vf::replaying() && sscanf(rp.c_str(), "n=%zu mask=%llu", &rn, &rm) == 2;
